@@ -642,7 +642,8 @@ Lemma add_attempt_spec s b j a i x s1 d :
 Proof.
   intros [HI HC] Hx Hon H. unfold add_attempt in H. unfold attempt_on in Hon.
   destruct (find_attempt s b j a) as [c0|] eqn:Ef.
-  - injection H as <- <-. repeat split; try assumption. exists c0. split; [exact Ef | apply Z.eqb_eq; exact Hon].
+  - injection H as <- <-. split; [split; assumption|]. split; [reflexivity|].
+    exists c0. split; [exact Ef | apply Z.eqb_eq; exact Hon].
   - cbv zeta in H.
     set (n := mkAttempt b j a i None None None None) in *.
     set (s0 := s <| attempts ::= fun l => l ++ [n] |>) in *.
